@@ -269,6 +269,41 @@ int main(int argc, char** argv)
 	snprintf(name, sizeof name, "%s/c05rec-%d.tmp", dir.c_str(), (int)getpid());
 	String path(name);
 	long round = 0;
+	if (args.mode == 1)
+	{
+		// documents of one to several MB (nested arrays of numbers and strings, so that no level is longer than a few
+		// hundred items): the whole text crosses the read-chunk boundary and the write flush hundreds of times
+		while (rec.events < args.events)
+		{
+			log.line("{\"e\":\"reset\"}");
+			gen.identKeys = true;
+			Node doc;
+			doc.k = 'a';
+			int rows = rng.range(250, 500);
+			for (int i = 0; i < rows; i++)
+			{
+				Node row;
+				row.k = rng.chance(85) ? 'a' : 'o';
+				int m = rng.range(150, 300);
+				for (int j = 0; j < m; j++)
+				{
+					Node x = gen.scalar(false);
+					if (row.k == 'a') row.a.push_back(x);
+					else row.o.push_back(std::make_pair(gen.ident(j) + std::to_string(j), x));
+				}
+				doc.a.push_back(row);
+			}
+			Var dv = build(doc);
+			bool json = rng.chance(60);
+			int mode = rng.chance(50) ? Json::NONE : Json::PRETTY;
+			if (json) Json::write(dv, path, Json::Mode(mode)); else Xdl::write(dv, path, mode);
+			Var back = json ? Json::read(path) : Xdl::read(path);
+			std::string tx = slurp(name);
+			rec.rt("hugefile", json, true, mode, doc, json ? &tx : 0, back);
+		}
+		unlink(name);
+		return 0;
+	}
 	while (rec.events < args.events)
 	{
 		log.line("{\"e\":\"reset\"}");
